@@ -36,7 +36,7 @@ func init() {
 			"(close-exhaustive) StreamReader.Close handles all kinds, a merged reader closes every source, a converting reader delegates; " +
 			"(copies-all-used) copyItem hands out every copy it creates.",
 		decided:    []string{"surplus-closed", "selected-never-skipped", "drain-closes", "forwarders", "last-close", "close-exhaustive", "copies-all-used"},
-		notDecided: []string{"absence of blocked goroutines as a run-time fact", "copy-count arithmetic vs. number of consumers (no solver)", "streams dropped on framework error paths (outside the property's premise)", "user nodes that do not close their inputs"},
+		notDecided: []string{"absence of blocked goroutines as a run-time fact", "copy-count arithmetic beyond the linear forms of resolveCompletedTasks (no solver)", "streams dropped on framework error paths (outside the property's premise)", "user nodes that do not close their inputs"},
 		run:        runC19,
 	})
 }
@@ -718,6 +718,10 @@ func runC19(w *World, r *Report) {
 		})
 		r.Check(ok, "C19.close-exhaustive", "streamReaderWithConvert.close delegates to its source", cc.Pos(), "srw.sr.Close()", "closing a converted reader does not close the underlying stream")
 	}
+
+	// ---- copies match consumers: no surplus copy is created that nobody reads or closes
+	r.Rule("C19.copies-match-consumers", "resolveCompletedTasks splits the last reserved copy into exactly as many copies as the branches selected successors need (linear form over len(writeTo), len(writeToBranches), len(successors)) — shared with C01", 1)
+	fanoutCountCheck(w, r, "C19.copies-match-consumers")
 
 	// ---- copies-all-used
 	r.Rule("C19.copies-all-used", "copyItem returns every copy it creates", 1)
